@@ -399,6 +399,7 @@ struct QExpression {
         SizeT64 num_right      = 0;
         bool    left_negative  = false;
         bool    right_negative = false;
+        bool    real_base      = false;
 
         switch (Type) {
             case ExpressionType::NaturalNumber: {
@@ -428,6 +429,12 @@ struct QExpression {
                     Value.Number.Natural = SizeT64{0};
                     Type                 = ExpressionType::NotANumber;
                     return false;
+                }
+
+                if (Value.Number.Real != double(SizeT64I(Value.Number.Real))) {
+                    // A base with a fraction stays real (2.5^2 is 6.25, not 2^2); see below.
+                    real_base = true;
+                    break;
                 }
 
                 Value.Number.Natural = QNumber64{SizeT64I(Value.Number.Real)}.Natural;
@@ -465,8 +472,8 @@ struct QExpression {
                     right_real = -right_real;
                 }
 
-                if ((right_real < 1.0) && (right_real > 0.0)) {
-                    // No power of fraction at the moment.
+                if (right_real != double(SizeT64I(right_real))) {
+                    // No power of fraction at the moment (2^2.5 is not 2^2).
                     Value.Number.Natural = SizeT64{0};
                     Type                 = ExpressionType::NotANumber;
                     return false;
@@ -477,6 +484,29 @@ struct QExpression {
 
             default: {
             }
+        }
+
+        if (real_base) {
+            const bool right_odd = ((num_right & SizeT64{1}) == SizeT64{1});
+            double     base      = Value.Number.Real;
+            double     result    = 1.0;
+
+            while (num_right != SizeT64{0}) {
+                if ((num_right & SizeT64{1}) == SizeT64{1}) {
+                    result *= base;
+                }
+
+                base *= base;
+                num_right >>= 1U;
+            }
+
+            if (right_negative) {
+                result = (1.0 / result);
+            }
+
+            Value.Number.Real = ((left_negative && right_odd) ? -result : result);
+            Type              = ExpressionType::RealNumber;
+            return true;
         }
 
         if (Value.Number.Natural != SizeT64{0}) {
